@@ -223,6 +223,13 @@ impl PoolEntry {
 		if depth as usize >= pool.inner.len().min(MAX_DYNAMIC_DEPTH) {
 			bail!("`Dynamic` pool entries are nested too deeply or refer to themselves, at bootstrap method index {bootstrap_method_attribute_index:?}");
 		}
+		// The arguments are stored by value: an entry that is named several times as an argument is resolved (and stored) that
+		// many times, so a short chain of entries that each name the one before twice denotes a tree of exponential size.
+		let nodes = if depth == 0 { 1 } else { pool.dynamic_nodes.get() + 1 };
+		if nodes > MAX_DYNAMIC_NODES {
+			bail!("`Dynamic` pool entry has more than {MAX_DYNAMIC_NODES} (nested) `Dynamic` bootstrap arguments, at bootstrap method index {bootstrap_method_attribute_index:?}");
+		}
+		pool.dynamic_nodes.set(nodes);
 		pool.dynamic_depth.set(depth + 1);
 		let arguments: Result<Vec<Loadable>> = (|| {
 			let mut vec = Vec::with_capacity(method.arguments.len());
@@ -295,12 +302,16 @@ impl PoolEntry {
 
 /// Limits the recursion when resolving `Dynamic` entries that have `Dynamic` entries as bootstrap arguments.
 const MAX_DYNAMIC_DEPTH: usize = 64;
+/// Limits how many `Dynamic` entries one `Dynamic` entry may have as (nested) bootstrap arguments in total.
+const MAX_DYNAMIC_NODES: usize = 1 << 12;
 
 pub(crate) struct PoolRead {
 	/// We store a [`None`] for the zero index, as well as for the upper indices of [`PoolEntry::Double`] and [`PoolEntry::Long`].
 	inner: Vec<Option<PoolEntry>>,
 	/// How many `Dynamic` entries are being resolved right now, each as a bootstrap argument of the one before.
 	dynamic_depth: Cell<u16>,
+	/// How many `Dynamic` entries were resolved so far below the outermost one being resolved right now.
+	dynamic_nodes: Cell<usize>,
 }
 
 impl PoolRead {
@@ -411,7 +422,7 @@ impl PoolRead {
 			};
 		}
 
-		Ok(PoolRead { inner: pool, dynamic_depth: Cell::new(0) })
+		Ok(PoolRead { inner: pool, dynamic_depth: Cell::new(0), dynamic_nodes: Cell::new(0) })
 	}
 
 	fn get(&self, index: u16) -> Result<&PoolEntry> {
